@@ -26,7 +26,8 @@ type TimingCfg struct {
 	Stop        bool   // batch: stop-on-error mode
 	Dur2        int    // batch: failing attempts of item 2 take this long (ms)
 	Dur         int    // every failing attempt takes this long (ms): the wait counts from its END
-	ErrKind     int    // what a failing attempt returns: 0 plain, 1 wraps context.DeadlineExceeded, 2 wraps context.Canceled, 3 errors.Join
+	Wus         int    // > 0: the retry wait in microseconds (waits below a millisecond), W is then 0
+	ErrKind     int    // 4: an error that carries a RetryAfter() hint shorter than the configured wait; what a failing attempt returns: 0 plain, 1 wraps context.DeadlineExceeded, 2 wraps context.Canceled, 3 errors.Join
 	DeadlineMs  int    // > 0: the run's context carries a real deadline this long after the start (instead of cancel())
 	Cause       bool   // the context is cancelled with a cause (context.WithCancelCause)
 	PrepW       bool   // batch: the node is built without a wait; its own prep callback sets it
@@ -38,12 +39,12 @@ func (c TimingCfg) toJSON() map[string]any {
 		sc = append(sc, b)
 	}
 	return map[string]any{"w": c.W, "N": c.N, "kind": c.Kind, "n": c.Items, "c": c.C, "script": sc, "upper": c.Upper, "cancelafter": c.CancelAfter, "dur": c.Dur, "fb": c.Fb, "stop": c.Stop, "dur2": c.Dur2,
-		"errkind": c.ErrKind, "deadlinems": c.DeadlineMs, "cause": c.Cause, "prepw": c.PrepW}
+		"wus": c.Wus, "errkind": c.ErrKind, "deadlinems": c.DeadlineMs, "cause": c.Cause, "prepw": c.PrepW}
 }
 
 func parseTimingCfg(m map[string]any) TimingCfg {
 	c := TimingCfg{W: asInt(m["w"]), N: asInt(m["N"]), Kind: asStr(m["kind"]), Items: asInt(m["n"]), C: asInt(m["c"]), Upper: asBool(m["upper"]), CancelAfter: asInt(m["cancelafter"]), Dur: asInt(m["dur"]), Fb: asBool(m["fb"]), Stop: asBool(m["stop"]), Dur2: asInt(m["dur2"]),
-		ErrKind: asInt(m["errkind"]), DeadlineMs: asInt(m["deadlinems"]), Cause: asBool(m["cause"]), PrepW: asBool(m["prepw"])}
+		Wus: asInt(m["wus"]), ErrKind: asInt(m["errkind"]), DeadlineMs: asInt(m["deadlinems"]), Cause: asBool(m["cause"]), PrepW: asBool(m["prepw"])}
 	for _, b := range asList(m["script"]) {
 		c.Script = append(c.Script, asBool(b))
 	}
@@ -139,9 +140,17 @@ func (t *timingRun) exec(p int) (any, error) {
 		return nil, fmt.Errorf("downstream call: %w", context.Canceled)
 	case 3:
 		return nil, errors.Join(errors.New("attempt failed"), errors.New("and its clean-up too"))
+	case 4:
+		return nil, fmt.Errorf("downstream says: %w", retryAfterErr{})
 	}
 	return nil, errors.New("attempt failed")
 }
+
+// an error with advice of its own about when to retry (as HTTP clients return): the configured wait is the node's
+type retryAfterErr struct{}
+
+func (retryAfterErr) Error() string             { return "busy, retry after 1ms" }
+func (retryAfterErr) RetryAfter() time.Duration { return time.Millisecond }
 
 func runTimingScenario(cfg TimingCfg) []Event {
 	t := &timingRun{cfg: cfg, att: map[int]int{}}
@@ -156,6 +165,9 @@ func runTimingScenario(cfg TimingCfg) []Event {
 	t.cancel = cancel
 	defer cancel()
 	wait := time.Duration(cfg.W) * time.Millisecond
+	if cfg.Wus > 0 {
+		wait = time.Duration(cfg.Wus) * time.Microsecond
+	}
 	var node flyt.Node
 	switch cfg.Kind {
 	case "struct":
@@ -267,7 +279,7 @@ func init() {
 					for i := range sc {
 						sc[i] = mask&(1<<uint(i)) != 0
 					}
-					c := TimingCfg{W: w, N: n, Kind: kinds[r.Intn(5)], Script: sc, ErrKind: len(cfgs) % 4}
+					c := TimingCfg{W: w, N: n, Kind: kinds[r.Intn(5)], Script: sc, ErrKind: len(cfgs) % 5}
 					if c.Kind == "batch" {
 						c.Items, c.C = 1+r.Intn(3), r.Intn(3)
 						c.PrepW = r.Intn(3) == 0
@@ -275,6 +287,25 @@ func init() {
 					cfgs = append(cfgs, c)
 				}
 			}
+		}
+		// T1 with waits below a millisecond (a timer is a timer, whatever its length)
+		for _, wus := range []int{250, 600, 999} {
+			for _, k := range kinds {
+				c := TimingCfg{Wus: wus, N: 4, Kind: k, Script: []bool{false, false, false, true}, ErrKind: len(cfgs) % 5}
+				if k == "batch" {
+					c.Items, c.C = 2, []int{0, 2}[wus%2]
+				}
+				cfgs = append(cfgs, c)
+			}
+		}
+		// a context with a deadline that is comfortably far away (450 ms for a run that needs a little more than 100 ms, but less
+		// than "the wait times the attempts left"): a deadline that has not expired changes nothing
+		for _, k := range kinds {
+			c := TimingCfg{W: 100, N: 6, Kind: k, Script: []bool{false, true}, DeadlineMs: 450}
+			if k == "batch" {
+				c.Items, c.C = 2, []int{0, 2}[len(cfgs)%2]
+			}
+			cfgs = append(cfgs, c)
 		}
 		// T1 again with slow failing attempts: the wait is measured from the END of the failed attempt
 		for _, k := range kinds {
